@@ -513,8 +513,9 @@ class nat_norm_macro(Macro):
         self.limit = 'nat_nat_power_def_1'
 
     def eval(self, goal, pts):
+        assert len(pts) == 0 and self.can_eval(goal), "nat_norm_macro"
+
         # Simply produce the goal.
-        assert len(pts) == 0, "nat_norm_macro"
         return Thm(goal)
 
     def can_eval(self, goal):
